@@ -1,4 +1,5 @@
 import Iavl.Lemmas.Versions
+import Iavl.Lemmas.Contig
 import Iavl.Model.FirstVersion
 import Iavl.Generated.FactsOk
 /-
@@ -39,6 +40,21 @@ theorem first_version_search (has : Nat → Bool) (first latest f : Nat)
     (hmono : ∀ v, first ≤ v → v ≤ latest → (has v = true ↔ f ≤ v)) :
     searchFirst has first latest = f :=
   searchFirst_correct has first latest f hf1 hf2 hmono
+
+/-- the available versions stay a contiguous range: a commit onto an existing number adds nothing;
+    at the tip (the tree positioned on the latest version, or nothing committed yet) it appends
+    `latest + 1` — or the configured initial version as the very first commit -/
+theorem commit_keeps_range_contiguous (s : VState C) (same : Bool) (h : Contig (verNums s))
+    (hpos : ∀ v ∈ verNums s, 0 < v)
+    (htip : findVer s.versions s.workingVersion = none → AtTip s) :
+    Contig (verNums (s.step ct (.save same)).1) :=
+  save_keeps_contig ct s same h hpos htip
+
+/-- … and deletions of old versions, rollbacks and deletions from a version upwards keep it contiguous -/
+theorem delete_keeps_range_contiguous (s : VState C) (n : Nat) (h : Contig (verNums s)) :
+    Contig (verNums (s.step ct (.prune n)).1) ∧ Contig (verNums (s.step ct (.delfrom n)).1) ∧
+    Contig (verNums (s.step ct (.loadow n)).1) :=
+  ⟨prune_keeps_contig ct s n h, delfrom_keeps_contig ct s n h, loadow_keeps_contig ct s n h⟩
 
 theorem numbering : Facts.genesisVersion = 1 := Facts.numbering_ok.1
 
